@@ -579,7 +579,7 @@ void RobustPath::simple_scale(double scale_factor) {
     if (scale_width) width_scale *= fabs(scale_factor);
     RobustPathElement *el = elements;
     for (uint64_t ne = 0; ne < num_elements; ne++, el++) {
-        el->end_extensions *= scale_factor;
+        el->end_extensions *= fabs(scale_factor);
     }
 }
 
